@@ -406,8 +406,26 @@ def r5(ctx):
             if self_call(call) == "fill_window":
                 fa = facts_at(call, check_kills=False)     # the guards as evaluated (the branch then moves the window)
                 apdu = fn.args.args[1].arg
-                ok = not evc.may_hold(fa, {"self.sentAllSegments": True}) and evc.may_hold(fa, {"self.sentAllSegments": False})
-                ctx.check("%s.%s:more-only-if-unsent" % (cname, mname), ok, where(cc.module, call), "a new burst is sent although all segments were sent")
+                # the window moves on for every in-window ack except the final one: the final ack is the one that acknowledges
+                # the last segment (sequence number (segmentCount - 1) mod 256) after everything was sent.  An earlier number -
+                # e.g. the negative ack for a gap in the last window - must trigger the retransmission, not the completion.
+                ks, kn, ka = "%s.apduSeq" % apdu, "self.segmentCount", "self.sentAllSegments"
+                table = {}
+                for sent in (True, False):
+                    for seq in (1, 2, 3):
+                        table[(sent, seq)] = evc.may_hold(fa, {ka: sent, ks: seq, kn: 4})
+                want = {(sent, seq): not (sent and seq == 3) for sent in (True, False) for seq in (1, 2, 3)}
+                ctx.check("%s.%s:burst-unless-final-ack" % (cname, mname), table == want, where(cc.module, call),
+                          "with 4 segments, an in-window ack must start the next burst unless all segments were sent AND it acknowledges sequence number 3; "
+                          "the code does so for (all sent, ack'd number): %s" % sorted(k for k, v in table.items() if v))
+                done = [x for x in calls_in(fn) if self_call(x) == "set_state" and any(isinstance(a_, ast.Call) and self_call(a_) == "in_window" for a_, _ in atoms_of_facts(facts_at(x, check_kills=False)))]
+                okf = len(done) == 1
+                if okf:
+                    fd = facts_at(done[0], check_kills=False)
+                    reach = sorted((sent, seq) for sent in (True, False) for seq in (1, 2, 3) if evc.may_hold(fd, {ka: sent, ks: seq, kn: 4}))
+                    okf = reach == [(True, 3)]
+                ctx.check("%s.%s:final-ack-acknowledges-last-segment" % (cname, mname), okf, where(cc.module, done[0] if done else fn),
+                          "leaving the sending state on a segment-ack requires: all segments sent and the ack carries the last sequence number (found reachable for %s)" % (reach if done and len(done) == 1 else "no unique transition"))
                 # the ack must be inside the window
                 inw = [(a, pol) for a, pol in atoms_of_facts(fa) if isinstance(a, ast.Call) and self_call(a) == "in_window"]
                 ok = len(inw) == 1 and inw[0][1] is True and [norm(a) for a in inw[0][0].args] == ["%s.apduSeq" % apdu, "self.initialSequenceNumber"]
@@ -561,3 +579,44 @@ def r7(ctx):
 def r9(ctx):
     from .c12 import window_agreement
     window_agreement(ctx)
+
+
+@rule("C05.R10", "a lost segment can be repaired: for the same configured segment timeout the side that waits for segments outlasts the side that retransmits them", floor=12, engines="E5 finite-domain expression evaluation")
+def r10(ctx):
+    prog = ctx.prog
+    RECV = {"ClientSSM": ("SEGMENTED_CONFIRMATION", ["segmented_confirmation"]), "ServerSSM": ("SEGMENTED_REQUEST", ["segmented_request"])}
+    SEND = {"ClientSSM": ("SEGMENTED_REQUEST", ["segmented_request", "segmented_request_timeout"]), "ServerSSM": ("SEGMENTED_RESPONSE", ["segmented_response", "segmented_response_timeout"])}
+    K = "self.segmentTimeout"
+    vals = {"recv": [], "send": []}
+    for cname in ("ClientSSM", "ServerSSM"):
+        c = prog.cls(MOD, cname)
+        ev = Evaluator(prog, c.module, c)
+        for side, table in (("recv", RECV), ("send", SEND)):
+            state, handlers = table[cname]
+            sites = []
+            for name, f in c.methods.items():
+                for call in calls_in(f):
+                    if self_call(call) == "set_state" and len(call.args) >= 2 and norm(call.args[0]) == state:
+                        sites.append((name, call, call.args[1]))
+                    if self_call(call) in ("start_timer", "restart_timer") and name in handlers and call.args:
+                        sites.append((name, call, call.args[0]))
+            for name, call, arg in sites:
+                try:
+                    v = ev.value(arg, {K: 1000})
+                    v2 = ev.value(arg, {K: 3000})
+                except (NotConst, TypeError):
+                    ctx.bad("%s.%s:%s-timer[%s]" % (cname, name, side, norm(arg)), where(c.module, call), "timer %s is not a function of the configured segment timeout" % norm(arg))
+                    continue
+                vals[side].append((cname, name, call, v, v2))
+    if len(vals["recv"]) < 8 or len(vals["send"]) < 6:
+        raise ShapeError("segment timers: %d receiving and %d sending sites found" % (len(vals["recv"]), len(vals["send"])))
+    smax = max(v for _, _, _, v, _ in vals["send"])
+    smax2 = max(v for _, _, _, _, v in vals["send"])
+    n = {}
+    for cname, name, call, v, v2 in vals["recv"]:
+        n[(cname, name)] = n.get((cname, name), 0) + 1
+        ctx.check("%s.%s:receiver-outlasts-retransmission#%d" % (cname, name, n[(cname, name)]), v > smax and v2 > smax2, where(prog.cls(MOD, cname).module, call),
+                  "waiting for the next segment for %s ms while the sender retransmits after %s ms (segment timeout 1000 on both sides): the receiver gives up at the moment the repair is sent" % (v, smax))
+    for cname, name, call, v, v2 in vals["send"]:
+        n[(cname, name)] = n.get((cname, name), 0) + 1
+        ctx.check("%s.%s:retransmits-after-Tseg#%d" % (cname, name, n[(cname, name)]), v == 1000 and v2 == 3000, where(prog.cls(MOD, cname).module, call), "the sender's segment timer must be the configured segment timeout (found %s for 1000)" % v)
